@@ -423,6 +423,41 @@ def run_shard(tier, seed, shard, nshards, res):
             finally:
                 drv.close()
                 sc.drop(d)
+        # sizes well beyond the threshold: replace / shrink / grow / remove, invariant after every call
+        for i in range(2 if tier == 'quick' else 20):
+            rng = common.rng_for(seed, 'c08big', shard, i)
+            d = sc.new()
+            cache = dc.Cache(d, disk_min_file_size=T, eviction_policy=gen.pick(rng, ['least-recently-used', 'none']))
+            obs = observe.Observer(d)
+            try:
+                for step in range(120):
+                    k = 'k%d' % rng.randrange(8)
+                    r = rng.random()
+                    v = gen.pick(rng, ['s' * rng.randrange(0, 6000), b'b' * rng.randrange(0, 6000), [rng.randrange(9)] * rng.randrange(0, 900), 7])
+                    if r < 0.6:
+                        cache.set(k, v)
+                    elif r < 0.7:
+                        cache.add(k, v)
+                    elif r < 0.8:
+                        cache.pop(k)
+                    elif r < 0.9:
+                        cache.delete(k)
+                    else:
+                        cache.push(v, prefix='q') if rng.random() < 0.5 else cache.pull(prefix='q')
+                    res.count('history_calls')
+                    res.count('evaluations')
+                    problems = observe.invariant(d, obs)
+                    if problems:
+                        res.violation('after %d calls with large values: %r' % (step + 1, problems[:3]), {'seed': seed, 'shard': shard, 'i': i})
+                        break
+                else:
+                    problems = quiescent_problems(dc, cache, d, obs)
+                    if problems:
+                        res.violation('after a large-value history: %r' % problems[:3], {'seed': seed, 'shard': shard, 'i': i})
+            finally:
+                obs.close()
+                cache.close()
+                sc.drop(d)
         probe.reset()
         for i in range(15 if tier == 'quick' else 200):
             rng = common.rng_for(seed, 'c08c', shard, i)
